@@ -8,6 +8,8 @@
  *   SAMPLES <kind> <nb> <minSize> <maxSize> <seed>      kind: text | records | rand | same | tiny | alpha2 | zero | mix
  *   TRAIN <algo> <capacity> <k> <d> <f> <accel> <steps> <split*100> <shrink> <nbThreads> <level>
  *        algo: default | cover | fastcover | optcover | optfast | legacy | finalize | addentropy
+ *   FAILAT <n>      (built with -DTRAINDRV_FAULT and -Wl,--wrap=malloc,--wrap=calloc) the n-th allocation made inside the next
+ *        training call returns NULL; 0 only counts.  The call must come back (error or dictionary) with every job accounted for.
  */
 #define ZSTD_STATIC_LINKING_ONLY
 #define ZDICT_STATIC_LINKING_ONLY
@@ -23,6 +25,13 @@
 #endif
 
 static FILE* T;
+#ifdef TRAINDRV_FAULT
+#include <stdlib.h>
+void* __real_malloc(size_t n); void* __real_calloc(size_t a, size_t b);
+static volatile long g_armed = 0, g_failAt = 0, g_count = 0, g_failed = 0;      /* counted under whatever interleaving the threads have: the sweep covers every n */
+void* __wrap_malloc(size_t n) { if (g_armed) { long c = __sync_add_and_fetch(&g_count, 1); if (c == g_failAt) { g_failed = 1; return NULL; } } return __real_malloc(n); }
+void* __wrap_calloc(size_t a, size_t b) { if (g_armed) { long c = __sync_add_and_fetch(&g_count, 1); if (c == g_failAt) { g_failed = 1; return NULL; } } return __real_calloc(a, b); }
+#endif
 #define PAGE 4096
 typedef struct { unsigned char* map; size_t mapSize; unsigned char* p; size_t size; } gbuf;
 static gbuf galloc(size_t size) { gbuf g; size_t pages = (size + PAGE - 1) / PAGE + 1; g.mapSize = (pages + 1) * PAGE; g.map = mmap(NULL, g.mapSize, PROT_READ | PROT_WRITE, MAP_PRIVATE | MAP_ANONYMOUS, -1, 0);
@@ -83,14 +92,24 @@ int main(int argc, char** argv) {
         if (sscanf(line, "%15s%n", cmd, &off) != 1) continue;
         if (!strcmp(cmd, "SAMPLES")) { char kind[16]; unsigned nb, seed; long mn, mx; if (sscanf(line + off, "%15s %u %ld %ld %u", kind, &nb, &mn, &mx, &seed) == 5) { make_samples(kind, nb, (size_t)mn, (size_t)mx, seed);
                 fprintf(T, "{\"e\":\"samples\",\"kind\":\"%s\",\"nb\":%u,\"total\":%zu}\n", kind, nbSamples, totalSize); } }
-        else if (!strcmp(cmd, "TRAIN")) { char algo[16]; long cap; unsigned k, d, f, accel, steps, split100, shrink, nbThreads; int level; gbuf gd, gd2; size_t r, r2 = 0; int isErr, loadsC = 0, loadsD = 0, rtAll = 1, rtFail = 0, repeatSame = 1; unsigned idDict = 0, idC = 0, idD = 0; unsigned i;
+#ifdef TRAINDRV_FAULT
+        else if (!strcmp(cmd, "FAILAT")) { long n = 0; sscanf(line + off, "%ld", &n); g_failAt = n; g_count = 0; g_failed = 0; g_armed = -1; }
+#endif
+        else if (!strcmp(cmd, "TRAIN")) { char algo[16]; long cap; unsigned k, d, f, accel, steps, split100, shrink, nbThreads; int level; gbuf gd, gd2; size_t r, r2 = 0; int isErr, loadsC = 0, loadsD = 0, rtAll = 1, rtFail = 0, repeatSame = 1, noRepeat = 0; unsigned idDict = 0, idC = 0, idD = 0; unsigned i;
             if (sscanf(line + off, "%15s %ld %u %u %u %u %u %u %u %u %d", algo, &cap, &k, &d, &f, &accel, &steps, &split100, &shrink, &nbThreads, &level) < 11 || cap < 0 || cap > (1 << 22)) continue;
             if (!gS.map) continue;
 #ifdef ZSTD_VERIF_TRACE
             nids = 0;
 #endif
             fprintf(T, "{\"e\":\"tbegin\",\"algo\":\"%s\",\"nbThreads\":%u}\n", algo, nbThreads);
-            gd = galloc((size_t)cap); r = train_once(algo, &gd, (size_t)cap, k, d, f, accel, steps, split100 / 100.0, shrink, nbThreads, level); isErr = ZDICT_isError(r);
+            gd = galloc((size_t)cap);
+#ifdef TRAINDRV_FAULT
+            { int inject = g_armed == -1; if (inject) g_armed = 1;
+#endif
+            r = train_once(algo, &gd, (size_t)cap, k, d, f, accel, steps, split100 / 100.0, shrink, nbThreads, level); isErr = ZDICT_isError(r);
+#ifdef TRAINDRV_FAULT
+              if (inject) { g_armed = 0; fprintf(T, "{\"e\":\"fault\",\"failAt\":%ld,\"allocs\":%ld,\"failed\":%ld,\"isErr\":%s}\n", g_failAt, g_count, g_failed, isErr ? "true" : "false"); noRepeat = 1; } }
+#endif
             if (!isErr && r > 0 && r <= (size_t)cap) { const unsigned char* dict = gd.p; size_t ds = r; ZSTD_CDict* cd; ZSTD_DDict* dd; size_t pos = 0; ZSTD_CCtx* c = ZSTD_createCCtx(); ZSTD_DCtx* dc = ZSTD_createDCtx(); static unsigned char *cb = NULL, *ob = NULL;
                 if (!strcmp(algo, "addentropy")) { /* the dictionary sits at the start of the buffer */ }
                 if (!cb) { cb = malloc(ZSTD_compressBound(1 << 22)); ob = malloc(1 << 22); }
@@ -101,7 +120,7 @@ int main(int argc, char** argv) {
                         pos += sizes[i]; if (i > 400) break; }
                 else rtAll = 0;
                 ZSTD_freeCDict(cd); ZSTD_freeDDict(dd); ZSTD_freeCCtx(c); ZSTD_freeDCtx(dc); }
-            if (nbThreads <= 1) { gd2 = galloc((size_t)cap); fprintf(T, "{\"e\":\"tbegin\",\"algo\":\"%s\",\"nbThreads\":%u}\n", algo, nbThreads);   /* (the repetition is a new optimiser call: new accounting) */
+            if (nbThreads <= 1 && !noRepeat) { gd2 = galloc((size_t)cap); fprintf(T, "{\"e\":\"tbegin\",\"algo\":\"%s\",\"nbThreads\":%u}\n", algo, nbThreads);   /* (the repetition is a new optimiser call: new accounting) */
                 r2 = train_once(algo, &gd2, (size_t)cap, k, d, f, accel, steps, split100 / 100.0, shrink, nbThreads, level);
                 repeatSame = (ZDICT_isError(r) && ZDICT_isError(r2)) || (r == r2 && (isErr || r > (size_t)cap || !memcmp(gd.p, gd2.p, r))); gfree(&gd2); }
             fprintf(T, "{\"e\":\"train\",\"algo\":\"%s\",\"kind\":\"%s\",\"nb\":%u,\"total\":%zu,\"cap\":%ld,\"k\":%u,\"d\":%u,\"f\":%u,\"accel\":%u,\"steps\":%u,\"split\":%u,\"shrink\":%u,\"nbThreads\":%u,\"isErr\":%s,\"err\":\"%s\",\"size\":%zu,\"loadsC\":%s,\"loadsD\":%s,\"idDict\":%u,\"idC\":%u,\"idD\":%u,\"rtAll\":%s,\"rtFail\":%d,\"repeatSame\":%s}\n",
